@@ -18,6 +18,19 @@ from props import c01, c02
 PROP = "C07"
 
 
+def literal_width_mismatch(t, types):
+    """known class F21: an OpConstant whose literal has not the width its result type - as tracked over the
+    whole types section, which is what the disassembler does - demands (type declared after the constant)"""
+    op, rt, rid, ops = t.split("/")
+    if op != "2b" or rt == "-" or ops == "-":
+        return False
+    ty = types.get(int(rt, 16))
+    if not ty:
+        return False
+    tok = ops.split(",")[0]
+    return (tok[0] == "Q") != (ty[1] == 64)
+
+
 def is_nan_literal(t, types):
     op, rt, rid, ops = t.split("/")
     if op != "2b" or rt == "-":
@@ -52,6 +65,11 @@ def modules(g, rng, tier, lay):
                        ("16/-/7/L10", ["L3c00", "L7bff"])):
         for v in vals:
             yield "typed constant", [decl, "2b/7/9/" + v, "32/7/a/" + v]
+    # one-word constants whose type is declared AFTER them (the disassembler tracks all types up front)
+    for w in (8, 16, 32, 64, 24):
+        for decl in ("15/-/7/L%x,L1" % w, "15/-/7/L%x,L0" % w, "16/-/7/L%x" % w):
+            for v in ("L7", "Lffffffff", "L80000001"):
+                yield "constant before its type", ["2b/7/9/" + v, decl]
     # extended instructions by name / by number
     for setname, ops in (("GLSL.std.450", [1, 31, 81, 82, 0]), ("OpenCL.std", [0, 95, 164, 165, 204, 205]), ("NonSemantic.DebugPrintf", [1])):
         sx = "S" + setname.encode().hex()
@@ -124,6 +142,9 @@ def run(rep):
                 ok = False
                 info = {"lemma": "correspondence stream c07 (Module::disassemble vs token-level Coq model)", "error": json.dumps(mism[0])[:1500]}
             nt = set()
+            import refparse
+            rp01 = refparse.RefParser(g)
+            known_f21 = []
             for (desc, insts, bound, version), got in zip(meta, il):
                 if got.startswith("ERR:"):
                     continue      # not loadable (outside the quantifier)
@@ -153,6 +174,9 @@ def run(rep):
                         for a, b in zip(back, flat):
                             if a != b and not is_nan_literal(b, types):
                                 what = "line reads back as %s, the instruction is %s" % (a, b)
+                                if literal_width_mismatch(b, types):
+                                    known_f21.append({"module": insts, "what": what})
+                                    what = None
                                 break
                 except (ValueError, IndexError, KeyError) as ex:
                     what = "the disassembly cannot be read back with the specification vocabulary: %s" % ex
@@ -171,6 +195,12 @@ def run(rep):
             rep.cov["distinct_nontrivial"] = len(nt)
             rep.cov["samples"] = [{"module": items[i][1][:6], "text": (bytes.fromhex(il[i].split(" ")[0][3:]).decode("utf-8")[:300] if il[i].startswith("OK:") and il[i].split(" ")[0][3:] != "-" else il[i][:80])} for i in (0, len(items) // 2)]
             bad.sort(key=lambda b: len(" ".join(b["module"])))
+            if known_f21:
+                ents = [e for e in core.load_known().get("open", []) if e["property"] == PROP and e.get("class", {}).get("literal_width_mismatch")]
+                if ents:
+                    rep.known("%s %s (%d module(s) of the class in this run, e.g. %s)" % (ents[0]["id"], ents[0]["what"][:160], len(known_f21), " ".join(known_f21[0]["module"])))
+                else:
+                    bad = [{"module": k["module"], "what": "constant before its type: " + k["what"]} for k in known_f21[:2]] + bad
     pipeline.conclude(rep, ok, info, bad, lambda b: b["what"], limit=4)
 
 
